@@ -41,23 +41,47 @@ package formula
 //@ spec cur(s *Scanner) int := urune(s.text[s.pos:])
 //@ spec adv(s *Scanner) int := s.pos + usize(s.text[s.pos:])
 
+// skipN(t, p, k): the position after k runes from p (it stops at the end of the text), for
+// the look-ahead distances the scanner uses (0, 1, 2).
+//@ spec adv1(t string, p int) int := (p >= 0 && p < len(t)) ? p + usize(t[p:]) : p
+//@ spec skipN(t string, p int, k int) int := k <= 0 ? p : (k == 1 ? adv1(t, p) : (k == 2 ? adv1(t, adv1(t, p)) : adv1(t, adv1(t, adv1(t, p)))))
+// runeAt: the rune that starts at position q
+//@ spec runeAt(t string, q int) int := urune(t[q:])
+
+// peekEqual(n, ch): the position after the rune n runes ahead if that rune is ch, else -1.
 //@ func (*Scanner).peekEqual
 //@   tags [C14,C01]
-//@   requires sbase(s)
+//@   requires sbase(s) && n >= 0 && n <= 2
 //@   panics never
 //@   ensures result == -1 || (s.pos < result && result <= s.end)
-//@   ensures n == 0 ==> ((result >= 0 <==> (s.pos < s.end && cur(s) == ch)) && (result >= 0 ==> result == adv(s)))
-//@   loop 1: invariant s.pos <= start && start <= s.end
-//@           invariant (n == old(n) && start == s.pos) || (n < old(n) && n >= 0)
+//@   ensures[C14] (result >= 0) == (skipN(s.text, s.pos, n) < s.end && runeAt(s.text, skipN(s.text, s.pos, n)) == ch)
+//@   ensures[C14] result >= 0 ==> result == skipN(s.text, s.pos, n + 1)
+//@   ensures[C14,C12] n == 0 && ch < 128 ==> ((result >= 0) == (s.pos < s.end && s.text[s.pos] == ch)) && (result >= 0 ==> result == s.pos + 1)
+//@   ensures[C14] n == 1 && ch < 128 && s.pos < s.end && s.text[s.pos] < 128 ==> ((result >= 0) == (s.pos + 1 < s.end && s.text[s.pos+1] == ch)) && (result >= 0 ==> result == s.pos + 2)
+//@   ensures[C14] n == 2 && ch < 128 && s.pos + 1 < s.end && s.text[s.pos] < 128 && s.text[s.pos+1] < 128 ==> ((result >= 0) == (s.pos + 2 < s.end && s.text[s.pos+2] == ch)) && (result >= 0 ==> result == s.pos + 3)
+//@   loop 1: invariant s.pos <= start && start <= s.end && n >= 0 && n <= old(n)
+//@           invariant[C14] start == skipN(s.text, s.pos, old(n) - n)
 //@           decreases s.end - start
 
+// peekCheck(n, f): the same for a predicate on runes; one clause per predicate it is used with.
 //@ func (*Scanner).peekCheck
 //@   tags [C14,C01]
-//@   requires sbase(s)
+//@   requires sbase(s) && n >= 0 && n <= 2
 //@   dispatch f: IsDigit, (*Scanner).isIdentifierPart, (*Scanner).scanNumber$1, (*Scanner).scanNumber$2, (*Scanner).Scan$1
 //@   panics never
 //@   ensures result == -1 || (s.pos < result && result <= s.end)
-//@   loop 1: invariant s.pos <= start && start <= s.end
+//@   ensures[C14] result >= 0 ==> skipN(s.text, s.pos, n) < s.end && result == skipN(s.text, s.pos, n + 1)
+//@   ensures[C14,C12] fn(f) == funcid(IsDigit) ==> ((result >= 0) == (skipN(s.text, s.pos, n) < s.end && isDigitCh(runeAt(s.text, skipN(s.text, s.pos, n)))))
+//@   ensures[C14] fn(f) == funcid((*Scanner).isIdentifierPart) ==> ((result >= 0) == (skipN(s.text, s.pos, n) < s.end && idPartU(runeAt(s.text, skipN(s.text, s.pos, n)))))
+//@   ensures[C12] fn(f) == funcid((*Scanner).scanNumber$1) ==> ((result >= 0) == (skipN(s.text, s.pos, n) < s.end && (runeAt(s.text, skipN(s.text, s.pos, n)) == 'e' || runeAt(s.text, skipN(s.text, s.pos, n)) == 'E')))
+//@   ensures[C12] fn(f) == funcid((*Scanner).scanNumber$2) ==> ((result >= 0) == (skipN(s.text, s.pos, n) < s.end && (runeAt(s.text, skipN(s.text, s.pos, n)) == '+' || runeAt(s.text, skipN(s.text, s.pos, n)) == '-')))
+//@   ensures[C12] n == 0 && fn(f) == funcid((*Scanner).scanNumber$1) ==> ((result >= 0) == (s.pos < s.end && (s.text[s.pos] == 'e' || s.text[s.pos] == 'E'))) && (result >= 0 ==> result == s.pos + 1)
+//@   ensures[C12] n == 0 && fn(f) == funcid((*Scanner).scanNumber$2) ==> ((result >= 0) == (s.pos < s.end && (s.text[s.pos] == '+' || s.text[s.pos] == '-'))) && (result >= 0 ==> result == s.pos + 1)
+//@   ensures[C14,C12] n == 1 && fn(f) == funcid(IsDigit) && s.pos < s.end && s.text[s.pos] < 128 ==> ((result >= 0) == (s.pos + 1 < s.end && isDigitCh(s.text[s.pos+1])))
+//@   ensures[C14] n == 1 && fn(f) == funcid((*Scanner).Scan$1) && s.pos < s.end && s.text[s.pos] < 128 ==> ((result >= 0) == (s.pos + 1 < s.end && (s.text[s.pos+1] == 'x' || s.text[s.pos+1] == 'X')))
+//@   ensures[C14] fn(f) == funcid((*Scanner).Scan$1) ==> ((result >= 0) == (skipN(s.text, s.pos, n) < s.end && (runeAt(s.text, skipN(s.text, s.pos, n)) == 'x' || runeAt(s.text, skipN(s.text, s.pos, n)) == 'X')))
+//@   loop 1: invariant s.pos <= start && start <= s.end && n >= 0 && n <= old(n)
+//@           invariant[C14] start == skipN(s.text, s.pos, old(n) - n)
 //@           decreases s.end - start
 
 //@ spec isDigitCh(ch int) bool := ch >= 48 && ch <= 57
@@ -99,21 +123,59 @@ package formula
 //@           invariant[C12] sepFlag(s) == (old(sepFlag(s)) || hasSep(s.text, old(s.pos), s.pos))
 //@           decreases s.end - s.pos
 
+// The literal as the statement words it: digits [ . digits ] [ (e|E) [+-] digits ], each digit
+// group possibly with separators. litEnd: where the scanner stops; litValue: the literal's
+// text with the separators removed (a '.' without fraction digits and an exponent without
+// digits contribute nothing - the latter is an error).
+//@ spec dotEnd(t string, m int) int := (m >= 0 && m < len(t) && t[m] == '.') ? fragEnd(t, m + 1) : m
+//@ spec hasExp(t string, d int) bool := d >= 0 && d < len(t) && (t[d] == 'e' || t[d] == 'E')
+//@ spec expSign(t string, d int) int := (d + 1 < len(t) && (t[d+1] == '+' || t[d+1] == '-')) ? d + 2 : d + 1
+//@ spec expEnd(t string, d int) int := fragEnd(t, expSign(t, d))
+//@ spec expOK(t string, d int) bool := hasExp(t, d) && len(strip(t, expSign(t, d), expEnd(t, d))) > 0
+//@ spec litEnd(t string, p int) int := hasExp(t, dotEnd(t, fragEnd(t, p))) ? expEnd(t, dotEnd(t, fragEnd(t, p))) : dotEnd(t, fragEnd(t, p))
+//@ spec fracPart(t string, m int) string := (dotEnd(t, m) > m && len(strip(t, m + 1, dotEnd(t, m))) > 0) ? "." ++ strip(t, m + 1, dotEnd(t, m)) : ""
+//@ spec expPart(t string, d int) string := expOK(t, d) ? t[d:expSign(t, d)] ++ strip(t, expSign(t, d), expEnd(t, d)) : ""
+//@ spec litValue(t string, p int) string := strip(t, p, fragEnd(t, p)) ++ fracPart(t, fragEnd(t, p)) ++ expPart(t, dotEnd(t, fragEnd(t, p)))
+//@ spec litTextEnd(t string, p int) int := expOK(t, dotEnd(t, fragEnd(t, p))) ? expEnd(t, dotEnd(t, fragEnd(t, p))) : dotEnd(t, fragEnd(t, p))
+
 //@ func (*Scanner).scanNumber
 //@   tags [C14,C01,C12]
-//@   requires scanFrame(s)
+//@   requires scanFrame(s) && !sepFlag(s)
 //@   assigns s.pos, s.tokenFlags, s.tokenValue, owner(s).parseDiagnostics
 //@   panics never
 //@   ensures scanFrame(s) && s.pos >= old(s.pos) && nd(s) >= old(nd(s))
 //@   ensures result0 == SK_NumberLiteral && result1 == s.tokenValue
 //@   ensures old(s.pos) < s.end && (isDigitCh(old(cur(s))) || old(cur(s)) == '.') ==> s.pos > old(s.pos)
+//@   ensures[C12] s.pos == litEnd(s.text, old(s.pos))
+//@   ensures[C12] sepFlag(s) ==> s.tokenValue == litValue(s.text, old(s.pos))
+//@   ensures[C12] !sepFlag(s) ==> s.tokenValue == s.text[old(s.pos):litTextEnd(s.text, old(s.pos))]
+//@   ensures[C12] hasExp(s.text, dotEnd(s.text, fragEnd(s.text, old(s.pos)))) && !expOK(s.text, dotEnd(s.text, fragEnd(s.text, old(s.pos)))) ==> errd(s)
+//@   ensures[C12] sepErr(s.text, old(s.pos), fragEnd(s.text, old(s.pos))) ==> errd(s)
+//@   ensures[C12] s.pos < s.end && idStartU(cur(s)) ==> errd(s)
+//@   cut 1: before (*Scanner).peekCheck
+//@           invariant scanFrame(s) && nd(s) >= old(nd(s)) && start == old(s.pos) && end@1 == s.pos && !old(sepFlag(s)) && start <= s.pos
+//@           invariant old(s.pos) < s.end && (isDigitCh(old(cur(s))) || old(cur(s)) == '.') ==> s.pos > old(s.pos)
+//@           invariant[C12] s.pos == dotEnd(s.text, fragEnd(s.text, start))
+//@           invariant[C12] mainFragment == strip(s.text, start, fragEnd(s.text, start))
+//@           invariant[C12] decimalFragment == (s.pos > fragEnd(s.text, start) ? strip(s.text, fragEnd(s.text, start) + 1, s.pos) : "") && scientificFragment == ""
+//@           invariant[C12] sepErr(s.text, start, fragEnd(s.text, start)) ==> errd(s)
+//@   cut 2: before (*Scanner).checkForIdentifierStartAfterNumericLiteral
+//@           invariant scanFrame(s) && nd(s) >= old(nd(s)) && start == old(s.pos) && start <= s.pos
+//@           invariant old(s.pos) < s.end && (isDigitCh(old(cur(s))) || old(cur(s)) == '.') ==> s.pos > old(s.pos)
+//@           invariant[C12] s.pos == litEnd(s.text, start)
+//@           invariant[C12] sepFlag(s) ==> s.tokenValue == litValue(s.text, start)
+//@           invariant[C12] !sepFlag(s) ==> s.tokenValue == s.text[start:litTextEnd(s.text, start)]
+//@           invariant[C12] hasExp(s.text, dotEnd(s.text, fragEnd(s.text, start))) && !expOK(s.text, dotEnd(s.text, fragEnd(s.text, start))) ==> errd(s)
+//@           invariant[C12] sepErr(s.text, start, fragEnd(s.text, start)) ==> errd(s)
 
 //@ func (*Scanner).checkForIdentifierStartAfterNumericLiteral
 //@   tags [C14,C01,C12]
 //@   requires scanFrame(s)
 //@   assigns s.pos, s.tokenFlags, owner(s).parseDiagnostics
 //@   panics never
-//@   ensures scanFrame(s) && s.pos == old(s.pos) && nd(s) >= old(nd(s))
+//@   ensures scanFrame(s) && s.pos == old(s.pos) && nd(s) >= old(nd(s)) && s.tokenFlags == old(s.tokenFlags)
+//@   ensures[C12] s.pos < s.end && idStartU(cur(s)) ==> errd(s)
+//@   ensures[C12] !(s.pos < s.end && idStartU(cur(s))) ==> nd(s) == old(nd(s))
 
 
 //@ func (*Scanner).scanHexDigits
@@ -122,10 +184,10 @@ package formula
 //@   assigns s.pos, s.tokenFlags, owner(s).parseDiagnostics
 //@   panics never
 //@   ensures scanFrame(s) && s.pos >= old(s.pos) && nd(s) >= old(nd(s))
-//@   ensures old(s.pos) < s.end && old(cur(s)) == 92 ==> result == "" && s.pos == old(s.pos)
+//@   ensures old(s.pos) < s.end && old(cur(s)) == 92 ==> result == "" && s.pos == old(s.pos) && s.tokenFlags == old(s.tokenFlags)
 //@   ensures allHexLower(result) && (scanAsManyAsPossible || len(result) <= max(count, 0))
 //@   loop 1: invariant scanFrame(s) && s.pos >= old(s.pos) && 0 <= underlineStart && underlineStart <= s.pos && nd(s) >= old(nd(s))
-//@           invariant old(s.pos) < s.end && old(cur(s)) == 92 ==> len(valueChars) == 0 && s.pos == old(s.pos) && !isPreviousTokenSeparator
+//@           invariant old(s.pos) < s.end && old(cur(s)) == 92 ==> len(valueChars) == 0 && s.pos == old(s.pos) && !isPreviousTokenSeparator && s.tokenFlags == old(s.tokenFlags)
 //@           invariant allHexLower(valueChars) && (scanAsManyAsPossible || len(valueChars) <= max(count, 0))
 //@           decreases s.end - s.pos
 
@@ -135,7 +197,7 @@ package formula
 //@   assigns s.pos, s.tokenFlags, owner(s).parseDiagnostics
 //@   panics never
 //@   ensures scanFrame(s) && s.pos >= old(s.pos) && nd(s) >= old(nd(s))
-//@   ensures old(s.pos) < s.end && old(cur(s)) == 92 ==> result == -1 && s.pos == old(s.pos)
+//@   ensures old(s.pos) < s.end && old(cur(s)) == 92 ==> result == -1 && s.pos == old(s.pos) && s.tokenFlags == old(s.tokenFlags)
 
 //@ func (*Scanner).scanHexadecimalEscape
 //@   tags [C14,C01,C13]
@@ -165,15 +227,15 @@ package formula
 //@   requires scanFrame(s) && s.pos < s.end && cur(s) == 92
 //@   assigns s.pos, s.tokenFlags, owner(s).parseDiagnostics
 //@   panics never
-//@   ensures scanFrame(s) && s.pos == old(s.pos) && nd(s) >= old(nd(s)) && result == -1
+//@   ensures scanFrame(s) && s.pos == old(s.pos) && nd(s) >= old(nd(s)) && result == -1 && s.tokenFlags == old(s.tokenFlags)
 
 //@ func (*Scanner).scanIdentifierParts
 //@   tags [C14,C01]
 //@   requires scanFrame(s)
 //@   assigns s.pos, s.tokenFlags, owner(s).parseDiagnostics
 //@   panics never
-//@   ensures scanFrame(s) && s.pos >= old(s.pos) && nd(s) >= old(nd(s))
-//@   loop 1: invariant scanFrame(s) && old(s.pos) <= start && start <= s.pos && nd(s) >= old(nd(s))
+//@   ensures scanFrame(s) && s.pos >= old(s.pos) && nd(s) >= old(nd(s)) && s.tokenFlags == old(s.tokenFlags)
+//@   loop 1: invariant scanFrame(s) && old(s.pos) <= start && start <= s.pos && nd(s) >= old(nd(s)) && s.tokenFlags == old(s.tokenFlags)
 //@           decreases s.end - s.pos
 
 //@ func (*Scanner).Scan
@@ -187,7 +249,7 @@ package formula
 //@   ensures s.token != SK_EndOfFile ==> s.pos > s.tokenPos
 //@   ensures s.token == SK_EndOfFile ==> s.pos == s.end
 //@   ensures[C01,C14] isIdTok(s.token) ==> len(s.tokenValue) > 0
-//@   loop 1: invariant sbase(s) && cbok(s) && s.startPos == old(s.pos) && s.startPos <= s.pos && nd(s) >= old(nd(s))
+//@   loop 1: invariant sbase(s) && cbok(s) && s.startPos == old(s.pos) && s.startPos <= s.pos && nd(s) >= old(nd(s)) && !sepFlag(s)
 //@           decreases s.end - s.pos
 //@   loop 2: invariant scanFrame(s) && s.startPos == old(s.pos) && nd(s) >= old(nd(s)) && s.tokenPos < s.pos
 //@           invariant tar@L2 == -1 || (s.pos <= tar@L2 && tar@L2 <= s.end)
@@ -208,6 +270,8 @@ package formula
 //@   requires s != nil && pos >= 0
 //@   panics never
 //@   ensures result1 >= 0 && result1 <= 4
+//@   ensures[C14,C12] pos < len(s.text) ==> result0 == urune(s.text[pos:]) && result1 == usize(s.text[pos:])
+//@   ensures[C14,C12] pos >= len(s.text) ==> result0 == 0 && result1 == 0
 
 // ---------------------------------------------------------------------------
 // Parser diagnostics plumbing
@@ -273,15 +337,21 @@ package formula
 //@ spec isIdStart(ch int) bool := (ch >= 'A' && ch <= 'Z') || (ch >= 'a' && ch <= 'z') || ch == '$' || ch == '_' || (ch > 127 && inTable(ch, unicodeES5IdentifierStart))
 //@ spec isIdPart(ch int) bool := (ch >= 'A' && ch <= 'Z') || (ch >= 'a' && ch <= 'z') || (ch >= '0' && ch <= '9') || ch == '$' || ch == '_' || (ch > 127 && inTable(ch, unicodeES5IdentifierPart))
 
+// idStartU / idPartU name the two classes, so that callers can pass the result along without
+// re-opening the table membership.
+//@ spec idStartU(ch int) bool
+//@ spec idPartU(ch int) bool
 //@ func IsIdentifierStart
 //@   tags [C14,C01]
 //@   panics never
 //@   ensures result == isIdStart(ch)
+//@   defines result == idStartU(ch)
 
 //@ func IsIdentifierPart
 //@   tags [C14,C01]
 //@   panics never
 //@   ensures result == isIdPart(ch)
+//@   defines result == idPartU(ch)
 
 // IsNull: nil interface or nil pointer (C16, and the speculation helpers).
 //@ spec isNullAny(a any) bool := isnil(a) || (isPtrAny(a) && refOf(a) == 0)
